@@ -621,6 +621,22 @@ fn geo_laws(g: &[f64; 4], zmin: u8, zmax: u8) -> Result<(), Fail> {
 	if let Err(pi) = guard(|| f.intersect_geo_bbox(&geo)) {
 		return Err(Fail::from_panic(&format!("intersect_geo_bbox({geo:?})"), &pi));
 	}
+	// a pyramid whose occupied levels are not contiguous (levels emptied by a mask derived from the
+	// zoom range): every occupied level must be intersected, whatever lies between
+	let gone = |z: u8| (z as u32 * 7 + zmin as u32 * 3 + zmax as u32) % 3 == 0;
+	let mut h = TileBBoxPyramid::new_full(31);
+	for z in 0..=31u8 {
+		if gone(z) {
+			h.set_level_bbox(TileBBox::new_empty(z).unwrap());
+		}
+	}
+	if let Err(pi) = guard(|| h.intersect_geo_bbox(&geo)) {
+		return Err(Fail::from_panic(&format!("intersect_geo_bbox({geo:?}) on a pyramid with gaps"), &pi));
+	}
+	for z in 0..=31u8 {
+		let want_h: IBox = if gone(z) { None } else { Some(per_level[z as usize]) };
+		same_set(z, h.get_level_bbox(z), &want_h, "pyramid:intersect_geo_bbox-differs-from-per-level", || format!("(full pyramid without the levels {:?}).intersect_geo_bbox({geo:?}) level {z}", (0..=31u8).filter(|z| gone(*z)).collect::<Vec<_>>()))?;
+	}
 	for z in 0..=31u8 {
 		let inside = zmin <= z && z <= zmax;
 		let want: IBox = if inside { Some(per_level[z as usize]) } else { None };
